@@ -259,8 +259,9 @@ class VerusUnit:
         parts = []  # (label, text, meta)
         prelude_path = spec.get("prelude")
         if prelude_path:
-            with open(os.path.join(core.VERIF, prelude_path)) as f:
-                parts.append(("prelude", f.read(), None))
+            for pp in ([prelude_path] if isinstance(prelude_path, str) else prelude_path):
+                with open(os.path.join(core.VERIF, pp)) as f:
+                    parts.append(("prelude", f.read(), None))
         cur_head = None
         for item in spec["items"]:
             k = item.get("kind", "fn")
